@@ -156,3 +156,76 @@ func zzLockDiscipline(w *zzWorld, op, t int, name string) {
 		wg.Wait()
 	}
 }
+
+// zzExtProbe: an external lookup that notes whether the scope that consults it
+// still holds its lock (a lookup that reads the scope - a lazy loader asking
+// e.Get - would then take the read lock a second time and deadlock behind a
+// queued writer; one that defines into it would deadlock at once).
+type zzExtProbe struct {
+	e     *Env
+	held  int
+	calls int
+}
+
+func (x *zzExtProbe) probe() {
+	x.calls++
+	if zz.Symbolic() {
+		x.held += zz.LocksHeld()
+		return
+	}
+	if !x.e.rwMutex.TryLock() {
+		x.held++
+		return
+	}
+	x.e.rwMutex.Unlock()
+}
+
+func (x *zzExtProbe) Get(name string) (reflect.Value, error) {
+	x.probe()
+	return NilValue, errExtMiss
+}
+
+func (x *zzExtProbe) Type(name string) (reflect.Type, error) {
+	x.probe()
+	return nil, errExtMiss
+}
+
+var errExtMiss = errorString("ext: not found")
+
+type errorString string
+
+func (e errorString) Error() string { return string(e) }
+
+// ZZ_C13_D1_external_lookup_called_unlocked: every operation that consults a
+// scope's external lookup (from the scope itself or from a child) does so with
+// no scope lock held.
+func ZZ_C13_D1_external_lookup_called_unlocked() {
+	parent := NewEnv()
+	child := parent.NewEnv()
+	on := []*Env{parent, child}[zz.Choose(2)]
+	from := child
+	if on == parent && zz.Choose(2) == 1 {
+		from = parent
+	}
+	p := &zzExtProbe{e: on}
+	on.SetExternalLookup(p)
+	parent.Define("b", int64(1))
+	ops := []string{"Get", "GetValue", "Addr", "Type", "Set", "DeleteGlobal"}
+	op := ops[zz.Choose(len(ops))]
+	name := []string{"n", "b"}[zz.Choose(2)]
+	switch op {
+	case "Get":
+		from.Get(name)
+	case "GetValue":
+		from.GetValue(name)
+	case "Addr":
+		from.Addr(name)
+	case "Type":
+		from.Type(name)
+	case "Set":
+		from.Set(name, int64(2))
+	case "DeleteGlobal":
+		from.DeleteGlobal(name)
+	}
+	zz.Assert(p.held == 0, "C13.D1.external-lookup-called-with-no-lock-held/"+op)
+}
